@@ -115,6 +115,50 @@ example : scanLong '"' ("\n    ".toList ++ escDoc 0 "\"\"\"\nimport os\n\"\"\"\\
       "\n".toList) :=
   docstring_literal_exact _ _ _ _ (by decide) (by decide)
 
+/-- Runs of double quotes of EVERY length (the case a one-pass rewrite of `escape_docstring` gets wrong: a run of
+4, 5, 7, 8, … quotes is more than whole triples): for all `n`, the docstring written around `n` consecutive quotes is
+one literal whose value is exactly those `n` quotes between the template's white space, and the lexer resumes behind
+the template's own closing quotes.  Corollary of `docstring_literal_exact`; what is written for the runs 1..9 is
+compared with the real filter, and judged by the property itself, on every run (vlib/props/c10_doc.py). -/
+theorem docstring_quote_runs_exact (n : Nat) (pre post rest : List Char)
+    (hpre : ∀ c ∈ pre, c = ' ' ∨ c = '\n') (hpost : ∀ c ∈ post, c = ' ') :
+    scanLong '"' (pre ++ escDoc 0 (List.replicate n '"') ++ '\n' :: post ++ ['"', '"', '"'] ++ rest) =
+      some (pre ++ List.replicate n '"' ++ '\n' :: post, rest) := by
+  have h := docstring_exact (List.replicate n '"') pre post rest hpre hpost
+  have hn : ∀ (k : Nat) (t : List Char), normNL (List.replicate k '"' ++ t) = List.replicate k '"' ++ normNL t := by
+    intro k t
+    induction k with
+    | zero => rfl
+    | succ k ih =>
+      rw [List.replicate_succ, List.cons_append, normNL, ih]
+      · rfl
+      · intro r hc; exact absurd hc (by decide)
+      · intro hc; exact absurd hc (by decide)
+  rw [hn] at h
+  simpa [normNL] using h
+
+/-- non-vacuity: what the modelled function writes for runs of 4, 5 and 8 quotes, and the theorem at `n = 4` with the
+templates' white space -/
+example : escDoc 0 (List.replicate 4 '"') = "\"\"\\\"\"".toList := by decide
+example : escDoc 0 (List.replicate 5 '"') = "\"\"\\\"\"\"".toList := by decide
+example : escDoc 0 (List.replicate 8 '"') = "\"\"\\\"\"\"\\\"\"\"".toList := by decide
+example : scanLong '"' ("\n    ".toList ++ escDoc 0 (List.replicate 4 '"') ++ '\n' :: "    ".toList ++ ['"', '"', '"'] ++ "\nx = 1\n".toList) =
+    some ("\n    ".toList ++ List.replicate 4 '"' ++ '\n' :: "    ".toList, "\nx = 1\n".toList) :=
+  docstring_quote_runs_exact 4 _ _ _ (by decide) (by decide)
+
+/-- why the triple quote must be written `""\"` and not the conventional way `\"""` (one backslash before three quotes)
+when the replacement consumes quotes three at a time: for a run of FOUR quotes that replacement writes `\""""` — the
+backslash protects one quote, the next three END the literal, and whatever follows the run in the description (`rest`,
+arbitrary) is read as code.  Kernel-checked witness of the regression family that the docstring campaigns look for. -/
+theorem backslash_before_triple_quote_breaks (rest : List Char) :
+    scanLong '"' ('\\' :: '"' :: '"' :: '"' :: '"' :: rest) = some (['"'], rest) := by
+  have hu : unitLong ('\\' :: '"' :: '"' :: '"' :: '"' :: rest) = some (['"'], '"' :: '"' :: '"' :: rest) := by
+    simp [unitLong, escape, simpleEsc, List.lookup]
+  rw [scanLong_step (by simp) hu]
+  have hclose : scanLong '"' ('"' :: '"' :: '"' :: rest) = some ([], rest) := by
+    rw [scanLong]; simp
+  rw [hclose]; rfl
+
 /-! ### Template sites -/
 
 /-- Every interpolation site of every template stands in exactly one lexical state, its
